@@ -37,6 +37,7 @@
 #include "awkward/partition/IrregularlyPartitionedArray.h"
 #include <map>
 #include <set>
+#include <algorithm>
 
 using namespace drv;
 
@@ -284,6 +285,59 @@ static std::string dump_result(const ContentPtr& c) {
   return dump(c);
 }
 
+// ---- value of an array, by walking it through the public element access (getitem_at_nowrap); record fields in
+// name order, strings as units, numbers without their dtype.  Used to compare two arrays that are dumped differently.
+static std::string value_elem(const ContentPtr& e);
+
+static bool is_stringlike(const ContentPtr& c) {
+  return c->parameter_equals("__array__", "\"string\"") || c->parameter_equals("__array__", "\"bytestring\"");
+}
+
+static std::string value_array(const ContentPtr& c0) {
+  ContentPtr c = c0;
+  while (const VirtualArray* v = dynamic_cast<const VirtualArray*>(c.get())) c = v->array();
+  std::string o = "(l";
+  int64_t n = c->length();
+  for (int64_t i = 0; i < n; i++) o += " " + value_elem(c->getitem_at_nowrap(i));
+  return o + ")";
+}
+
+static std::string value_elem(const ContentPtr& e0) {
+  ContentPtr e = e0;
+  while (const VirtualArray* v = dynamic_cast<const VirtualArray*>(e.get())) e = v->array();
+  if (dynamic_cast<const None*>(e.get())) return "none";
+  if (const Record* r = dynamic_cast<const Record*>(e.get())) {
+    std::vector<std::string> ks = r->keys();
+    std::vector<std::pair<std::string, std::string>> kv;
+    for (auto& k : ks) kv.push_back(std::make_pair(k, value_elem(r->field(k))));
+    std::sort(kv.begin(), kv.end());
+    std::string o = r->istuple() ? "(t" : "(r";
+    for (auto& p : kv) o += " (" + p.first + " " + p.second + ")";
+    return o + ")";
+  }
+  if (const NumpyArray* a = dynamic_cast<const NumpyArray*>(e.get())) {
+    if (a->ndim() == 0) {
+      util::dtype d = a->dtype();
+      std::string x = load(d, (const char*)a->ptr().get() + a->byteoffset(), 0);
+      if (d == util::dtype::boolean) return x == "1" ? "true" : "false";
+      return x;
+    }
+  }
+  if (is_stringlike(e)) {
+    std::string o = e->parameter_equals("__array__", "\"string\"") ? "(s" : "(b";
+    int64_t n = e->length();
+    for (int64_t i = 0; i < n; i++) o += " " + value_elem(e->getitem_at_nowrap(i));
+    return o + ")";
+  }
+  return value_array(e);
+}
+
+static std::string value_result(const ContentPtr& c) {
+  if (dynamic_cast<const Record*>(c.get()) || dynamic_cast<const None*>(c.get())) return value_elem(c);
+  if (const NumpyArray* a = dynamic_cast<const NumpyArray*>(c.get())) if (a->ndim() == 0) return value_elem(c);
+  return value_elem(c);
+}
+
 // op = list (NAME args...) starting at index `b` of `s`.  Array results go to `out`, others to `text`.
 static void apply_op(const Sx& s, size_t b, const ContentPtr& c, ContentPtr& out, std::string& text) {
   const std::string op = s[b].a;
@@ -483,7 +537,19 @@ static std::string handle_virt(const Sx& cs) {
         Outcome eo = run_op(st, b, etarget, !quiet);
         std::cerr << "@V " << (k - 1) << std::endl;
         Outcome vo = run_op(st, b, vtarget, !quiet);
-        if (vo.ok) { vr = vo.arr; vtxt = "(v ok " + ((eo.ok && eo.text == vo.text && !quiet) ? std::string("=") : vo.text) + ")"; }
+        if (vo.ok) {
+          vr = vo.arr;
+          bool same = eo.ok && eo.text == vo.text && !quiet;
+          vtxt = "(v ok " + (same ? std::string("=") : vo.text) + ")";
+          if (!same && !quiet && eo.ok && vo.arr.get() != nullptr && eo.arr.get() != nullptr) {
+            // differently dumped arrays: compare the values element by element
+            std::string vv, ev;
+            try { vv = value_result(vo.arr); ev = value_result(eo.arr); }
+            catch (std::exception& e) { vv = "(walk-failed)"; ev = "(walk-failed-too)"; }
+            if (vv == ev) vtxt += " (veq 1)";
+            else vtxt += " (veq 0 " + vv + " " + ev + ")";
+          }
+        }
         else vtxt = "(v err " + vo.err + ")";
         if (eo.ok) { er = eo.arr; etxt = "(e ok " + eo.text + ")"; }
         else etxt = "(e err " + eo.err + ")";
@@ -526,7 +592,7 @@ static PartitionedArrayPtr split(const ContentPtr& c, const std::vector<int64_t>
 }
 
 struct POut {
-  bool ok = false; std::string err, text;
+  bool ok = false; std::string err, text, value;
   PartitionedArrayPtr next; ContentPtr nexteager;
   PartitionedArrayPtr pres;   // partitioned result of range / narrow / repartition
   ContentPtr cres;            // eager result of the same
@@ -545,7 +611,7 @@ static POut part_op(const Sx& st, const PartitionedArrayPtr& p) {
   POut o;
   const std::string op = st.head();
   guarded(o, [&]() {
-    if (op == "at") o.text = dump_result(p->getitem_at(to_i64(st[1])));
+    if (op == "at") { ContentPtr x = p->getitem_at(to_i64(st[1])); o.text = dump_result(x); o.value = value_result(x); }
     else if (op == "range" || op == "narrow") {
       PartitionedArrayPtr r = p->getitem_range(bound(st[1]), bound(st[2]), bound(st[3]));
       o.text = dump_parts(r);
@@ -588,7 +654,7 @@ static POut eager_op(const Sx& st, const ContentPtr& c) {
   POut o;
   const std::string op = st.head();
   guarded(o, [&]() {
-    if (op == "at") o.text = dump_result(c->getitem_at(to_i64(st[1])));
+    if (op == "at") { ContentPtr x = c->getitem_at(to_i64(st[1])); o.text = dump_result(x); o.value = value_result(x); }
     else if (op == "range" || op == "narrow") {
       Slice s;
       s.append(std::make_shared<SliceRange>(bound(st[1]), bound(st[2]), bound(st[3])));
@@ -643,8 +709,19 @@ static std::string handle_part(const Sx& cs) {
       else {
         es = " (es";
         start = 0;
-        for (auto s : rs) { es += " " + dump(eo.cres->getitem_range_nowrap(start, s)); start = s; }
-        es += ")";
+        std::string peq = " (peq";
+        int64_t pi = 0;
+        for (auto s : rs) {
+          ContentPtr slice = eo.cres->getitem_range_nowrap(start, s);
+          es += " " + dump(slice);
+          std::string a, b;
+          try { a = value_array(po.pres->partition(pi)); b = value_array(slice); }
+          catch (std::exception& e) { a = "(walk-failed)"; b = "(walk-failed-too)"; }
+          peq += (a == b) ? " 1" : " (0 " + a + " " + b + ")";
+          start = s;
+          pi++;
+        }
+        es += ")" + peq + ")";
       }
       // element types (a slice keeps the type; repartition merges and may legitimately change the node class)
       if (st.head() == "range" || st.head() == "narrow") {
@@ -663,6 +740,8 @@ static std::string handle_part(const Sx& cs) {
       if (eo.ok && eo.nexteager.get() != nullptr) eager = eo.nexteager;
     }
     if (k > 1) out += " ";
+    if (st.head() == "at" && po.ok && eo.ok)
+      es = (po.value == eo.value) ? " (aeq 1)" : " (aeq 0 " + po.value + " " + eo.value + ")";
     out += "(step " + show("p", po) + " " + show("e", eo) + " " + show("q", qo) + es + ")";
   }
   return out;
